@@ -5,3 +5,4 @@ import Model.Num
 import Model.Bonferroni
 import Model.DepGraph
 import Model.EnvPersist
+import Model.RunCmd
